@@ -161,7 +161,7 @@ theorem step_blockG (g : Nat) (b : Bool) : StepSim (.blockG g b) := by
           obtain ⟨c0, hc0, rfl⟩ := List.mem_map.mp hc'
           exact ⟨c0, hc0, rfl⟩
         exact ⟨hR.T, hR.S, hR.G, ptrs_mono (Nat.le_refl _) hle hR.C, ptrs_mono (Nat.le_refl _) hle hR.K,
-          hR.sigs.set im ⟨hcells, hr.active, hr.dirty, hr.limbo⟩, hR.ownedT, ptrs_mono (Nat.le_refl _) hle hR.ownedK,
+          hR.sigs.set im ⟨hcells, hr.active, hr.dirty, hr.limbo⟩, hR.ownedT, ptrs_mono (Nat.le_refl _) hle hR.ownedK, hR.ownedG,
           hR.next, hR.depth, hR.steps, hR.trace, hR.k1, hR.k2⟩
 
 /-! ### queries and `block()` through connections -/
